@@ -184,6 +184,35 @@ def run(repo: Repo, rep: Report) -> None:
     if nrem < 1:
         raise AnalysisError("RDF Patch parser: expected a remove site, found %d" % nrem)
 
+    # ------------------------------------------------------------------ (e)
+    rep.rule("C06.e-trig-graph-label-is-a-reference",
+             "TriG serializer: the Turtle writer abbreviates a blank node as `[ ... ]` when its reference count is at most 1 (p_squared); a blank node that "
+             "labels a graph block keeps its label there, so preprocess counts the label as a reference of that node for every graph it writes - otherwise "
+             "a statement whose object is the blank-node name of a graph is written with an anonymous node and the link to the graph is lost", floor=2)
+    tg = repo.mod("rdflib.plugins.serializers.trig")
+    tu = repo.mod("rdflib.plugins.serializers.turtle")
+    psq = tu.func("TurtleSerializer.p_squared")
+    uses_count = any(isinstance(n, ast.Compare) and "_references[" in norm(n.left) for n in own_nodes(psq))
+    rep.ob("C06.e-trig-graph-label-is-a-reference", tu, "TurtleSerializer.p_squared", "inlining is decided by self._references[node]", True,
+           "reference-count based inlining" if uses_count else "p_squared no longer inlines by reference count: the label obligation below is moot", node=psq)
+    pre = tg.func("TrigSerializer.preprocess")
+    loops = [n for n in own_nodes(pre) if isinstance(n, ast.For) and "contexts" in norm(n.iter)]
+    if not loops:
+        raise AnalysisError("TrigSerializer.preprocess: loop over the contexts not found")
+    if uses_count:
+        lp = loops[0]
+        cvar = norm(lp.target)
+        hit = None
+        for st in lp.body:  # top level of the loop body: executed for every context that is not skipped
+            cand = [st] if isinstance(st, (ast.AugAssign, ast.Assign)) else ([x for x in st.body if isinstance(x, (ast.AugAssign, ast.Assign))] if isinstance(st, ast.If) and not st.orelse and "BNode" in norm(st.test) else [])
+            for x in cand:
+                tgt = x.target if isinstance(x, ast.AugAssign) else x.targets[0]
+                if isinstance(tgt, ast.Subscript) and norm(tgt.value).endswith("_references") and norm(tgt.slice) == "%s.identifier" % cvar:
+                    hit = x
+        rep.ob("C06.e-trig-graph-label-is-a-reference", tg, "TrigSerializer.preprocess", hit if hit is not None else "self._references[%s.identifier] is incremented per written graph" % cvar,
+               hit is not None, "graph label counted" if hit is not None else
+               "the graph label is not counted as a reference: `<s> <p> _:g` inside one graph, with _:g also the name of another graph, is written as `<s> <p> [ ]` while the graph block keeps `_:g {`: after parsing, the object and the graph name are different blank nodes", node=hit or pre)
+
 
 def _assigned_unconditionally_before(loop: ast.For, name: str, site: ast.AST) -> bool:
     for s in loop.body:
